@@ -37,15 +37,20 @@ fn get_server_values_impl(socket: &mut UdpSocket) -> GDResult<HashMap<String, St
 
     let mut received_query_id: Option<usize> = None;
     let mut parts: Vec<usize> = Vec::new();
-    let mut is_finished = false;
+    // The part carrying `final` has the highest part number (they start at 1), the parts can
+    // arrive in any order
+    let mut total_parts: Option<usize> = None;
 
     let mut server_values = HashMap::new();
 
-    while !is_finished {
+    while total_parts.map_or(true, |total| parts.len() < total) {
         let data = socket.receive(None)?;
         let mut bufferer = Buffer::<LittleEndian>::new(&data);
 
         let mut as_string = bufferer.read_string::<Utf8Decoder>(None)?;
+        if as_string.is_empty() {
+            return Err(GDErrorKind::PacketBad.context("Empty packet"));
+        }
         as_string.remove(0);
 
         let splited: Vec<String> = as_string.split('\\').map(str::to_string).collect();
@@ -60,7 +65,7 @@ fn get_server_values_impl(socket: &mut UdpSocket) -> GDResult<HashMap<String, St
             server_values.insert(key, value);
         }
 
-        is_finished = server_values.remove("final").is_some();
+        let is_final = server_values.remove("final").is_some();
 
         let query_data = server_values.get("queryid");
 
@@ -89,6 +94,10 @@ fn get_server_values_impl(socket: &mut UdpSocket) -> GDResult<HashMap<String, St
         match parts.contains(&part) {
             true => Err(GDErrorKind::PacketBad)?,
             false => parts.push(part),
+        }
+
+        if is_final {
+            total_parts = Some(part);
         }
     }
 
